@@ -93,6 +93,16 @@ func init() {
 				c.Fail("C11.body-short-of-content-length", "declared Content-Length %d, body has %d bytes\nscenario: %s", rec.DeclaredCL, rec.BodyBytes.Len(), desc)
 			}
 		}
+		if te := rec.Snapshot.Values("Transfer-Encoding"); len(te) > 0 && owner == "" {
+			// the body the transcoder sends is its own: a transfer coding named by the backend does not apply
+			// to it (net/http passes an unknown one through, and the client cannot de-frame the response)
+			for _, v := range te {
+				if v != "chunked" && v != "identity" {
+					c.Fail("C11.foreign-transfer-encoding", "the response head carries Transfer-Encoding %q, set by the backend for ITS body\nscenario: %s", te, desc)
+					break
+				}
+			}
+		}
 		c.Outcome(statusClass(rec.Status))
 	}
 	Register(&Check{
